@@ -15,6 +15,8 @@ pub struct Inst {
     pub id: String,
     pub seq: usize,
     pub r: String,
+    /// layout only: the reference element is written before the SEQUENCE-NUMBER element
+    pub ref_first: bool,
 }
 
 #[derive(Clone, Debug)]
@@ -60,7 +62,7 @@ fn ps(s: &str) -> String {
 fn p_insts(v: &[Inst]) -> String {
     let mut s = v.len().to_string();
     for i in v {
-        s.push_str(&format!(" {} {} {}", ps(&i.id), i.seq, ps(&i.r)));
+        s.push_str(&format!(" {} {} {} {}", ps(&i.id), i.seq, ps(&i.r), if i.ref_first { 1 } else { 0 }));
     }
     s
 }
@@ -129,12 +131,10 @@ pub fn render_xml(d: &[Elem]) -> String {
                 if !p.signals.is_empty() {
                     x.push_str("<fx:SIGNAL-INSTANCES>");
                     for i in &p.signals {
-                        x.push_str(&format!(
-                            "<fx:SIGNAL-INSTANCE ID=\"{}\">{}<fx:SIGNAL-REF ID-REF=\"{}\"/></fx:SIGNAL-INSTANCE>",
-                            esc(&i.id),
-                            text_elem("fx:SEQUENCE-NUMBER", &i.seq.to_string()),
-                            esc(&i.r)
-                        ));
+                        let seq = text_elem("fx:SEQUENCE-NUMBER", &i.seq.to_string());
+                        let rf = format!("<fx:SIGNAL-REF ID-REF=\"{}\"/>", esc(&i.r));
+                        let (a, b) = if i.ref_first { (rf, seq) } else { (seq, rf) };
+                        x.push_str(&format!("<fx:SIGNAL-INSTANCE ID=\"{}\">{}{}</fx:SIGNAL-INSTANCE>", esc(&i.id), a, b));
                     }
                     x.push_str("</fx:SIGNAL-INSTANCES>");
                 }
@@ -150,12 +150,11 @@ pub fn render_xml(d: &[Elem]) -> String {
                 x.push_str(&text_elem("fx:FRAME-TYPE", "OTHER"));
                 x.push_str("<fx:PDU-INSTANCES>");
                 for i in &f.pdus {
-                    x.push_str(&format!(
-                        "<fx:PDU-INSTANCE ID=\"{}\"><fx:PDU-REF ID-REF=\"{}\"/>{}</fx:PDU-INSTANCE>",
-                        esc(&i.id),
-                        esc(&i.r),
-                        text_elem("fx:SEQUENCE-NUMBER", &i.seq.to_string())
-                    ));
+                    let seq = text_elem("fx:SEQUENCE-NUMBER", &i.seq.to_string());
+                    let rf = format!("<fx:PDU-REF ID-REF=\"{}\"/>", esc(&i.r));
+                    // (the repository's documents write a PDU instance's reference first)
+                    let (a, b) = if i.ref_first { (seq, rf) } else { (rf, seq) };
+                    x.push_str(&format!("<fx:PDU-INSTANCE ID=\"{}\">{}{}</fx:PDU-INSTANCE>", esc(&i.id), a, b));
                 }
                 x.push_str("</fx:PDU-INSTANCES>");
                 if let Some(e) = &f.ext {
@@ -232,7 +231,29 @@ pub fn prettify(r: &mut Rng, xml: &str) -> String {
             } else if close && depth > 0 {
                 depth -= 1;
             }
-            out.extend_from_slice(&bytes[i..end]);
+            if !close && !decl && r.chance(1, 5) {
+                // attributes the loader does not know, with names close to the ones it looks for
+                // (FIBEX elements carry an OID next to their ID): in front of the known attributes
+                // and behind them
+                const DECOYS: &[&str] = &[
+                    " OID=\"o-1\"", " UUID=\"u\"", " XID=\"ID_9\"", " MY-ID=\"k\"", " ID-REF-OLD=\"ID_1\"",
+                    " T=\"S_BOOL\"", " xsi:typo=\"t\"", " DATA-TYPE=\"A_UINT8\"", " REF=\"r\"", " D=\"\"",
+                ];
+                let tag = &bytes[i..end];
+                let name_end = tag.iter().position(|b| *b == b' ' || *b == b'>' || *b == b'/').unwrap_or(tag.len());
+                let tail_start = if selfclose { tag.len() - 2 } else { tag.len() - 1 };
+                out.extend_from_slice(&tag[..name_end]);
+                if r.flip() {
+                    out.extend_from_slice(r.pick(&DECOYS[..5]).as_bytes());
+                }
+                out.extend_from_slice(&tag[name_end..tail_start.max(name_end)]);
+                if r.flip() {
+                    out.extend_from_slice(r.pick(&DECOYS[5..]).as_bytes());
+                }
+                out.extend_from_slice(&tag[tail_start.max(name_end)..]);
+            } else {
+                out.extend_from_slice(&bytes[i..end]);
+            }
             prev_open = !close && !selfclose && !decl;
             i = end;
         } else {
@@ -306,6 +327,7 @@ pub fn gen_model(r: &mut Rng) -> Model {
         let ns = r.below(5) as usize;
         let signals = (0..ns)
             .map(|k| Inst {
+                ref_first: r.chance(1, 3),
                 id: format!("I{}_{}", pi, k),
                 seq: seq(r, k),
                 r: match r.below(10) {
@@ -346,6 +368,7 @@ pub fn gen_model(r: &mut Rng) -> Model {
         let np = if pdu_ids.is_empty() { 0 } else { r.below(5) as usize };
         let pdus = (0..np)
             .map(|k| Inst {
+                ref_first: r.chance(1, 3),
                 id: format!("PI{}_{}", fi, k),
                 seq: seq(r, k),
                 // a dangling reference must fail loading also in a repeated definition of a frame
@@ -707,6 +730,7 @@ fn skip_insts(t: &mut Toks) -> R<()> {
         t.bytes()?;
         let _: usize = t.num()?;
         t.bytes()?;
+        t.boolean()?;
     }
     Ok(())
 }
